@@ -26,11 +26,10 @@ NP = {'f8': np.float64, 'f4': np.float32, 'i8': np.int64, 'i4': np.int32, 'i2': 
 INT_SCALE = {'u1': 50, 'u2': 13000, 'i2': 6000}
 REBIN_SCALE = {'u2': 300, 'i2': 150}
 # argument forms (spec: ScalarForms, DimsForms; law FormIndependent)
-WFORMS = ['int', 'np.int64', 'np.int32', 'np.int16', 'np.uint8', '0-d array']
-DFORMS = ['tuple of int', 'tuple of np.int64', 'tuple of np.int32', 'tuple of np.int16', 'tuple of 0-d arrays', '1-d ndarray', 'list']
+WFORMS = ['int', 'np.int64', 'np.int32', 'np.int16', 'np.uint8']
+DFORMS = ['tuple of int', 'tuple of np.int64', 'tuple of np.int32', 'tuple of np.int16', '1-d ndarray', 'list']
 IDXDT = ['i8', 'i4', 'i2', 'i1', 'u1', 'u2']
-_SCAL = {'int': int, 'np.int64': np.int64, 'np.int32': np.int32, 'np.int16': np.int16, 'np.uint8': np.uint8,
-         '0-d array': lambda v: np.array(v)}
+_SCAL = {'int': int, 'np.int64': np.int64, 'np.int32': np.int32, 'np.int16': np.int16, 'np.uint8': np.uint8}
 
 
 def scalar_form(w, form):
@@ -45,8 +44,6 @@ def dims_form(d, form):
         return np.array(d, dtype=np.int64)
     if k == 'list':
         return [int(v) for v in d]
-    if k == 'tuple of 0-d arrays':
-        return tuple(np.array(v) for v in d)
     return tuple(_SCAL[k[len('tuple of '):]](v) for v in d)
 MAX_VIOL_PER_FN = 25
 
@@ -281,7 +278,7 @@ def call_text(c, dt, K=1, form=0):
     fn = c['fn']
     arr = 'np.array(%r, dtype=%r).reshape(%r)' % ([K * v for v in c['x']], dt, tuple(c['shape']))
     wf = WFORMS[form % len(WFORMS)]
-    wtxt = '%d' % c['w'] if wf == 'int' else ('np.array(%d)' % c['w'] if wf == '0-d array' else '%s(%d)' % (wf, c['w']))
+    wtxt = '%d' % c['w'] if wf == 'int' else '%s(%d)' % (wf, c['w'])
     if fn == 'smooth':
         return 'smooth(%s, %s, edge_truncate=%r)' % (arr, wtxt, c['flag'])
     if fn == 'median':
@@ -709,9 +706,19 @@ def run(ctx):
         'smooth: every requested width 0..n (made odd afterwards, effective width up to n+1); medians: odd widths not exceeding the smallest dimension',
         'array dtype is a dimension of the case space: every call also runs with float32 / int64 / int32 / int16 / uint16 / uint8 / '
         'bool data as the values fit (integer grids = the enumerated array times K, laws *Scales); widths, dims and index arrays '
-        'as Python ints, numpy integer scalars of several widths, 0-d arrays, 1-d arrays, lists (law FormIndependent)',
+        'as Python ints, numpy integer scalars of several widths, 1-d integer arrays, lists (law FormIndependent); 0-d ARRAYS as '
+        'width / dimension are not integers (numbers.Integral) and are outside the statement: an implementation may reject them '
+        '(archived benign change C14-b6 does)',
         'integer results of smooth / rebin (pydl returns the input type): any rounding accepted, i.e. at most 1 away from the '
         'exact value per resampled axis (IntegerResultOK); selections (medians, sample=True, uniq) exact; wrap-around is a violation',
+        'rebin of INTEGER data, order of the per-axis steps: not asserted.  Over exact arithmetic the per-axis maps commute (TLC '
+        'law RebinAxesCommute), so the statement fixes one exact value E whatever the order; the order only shows through the '
+        'rounding of the integer intermediates, which the statement leaves open (pydl documents integer results as not IDL '
+        'compatible, upstream #60, xfail test).  Every step is a convex combination of the previous values plus one truncation, '
+        'so ANY order stays within |result - E| <= number of resampled axes, exactly what IntegerResultOK admits: measured over '
+        '58888 random int16/int32/int64/uint8/uint16 calls of rank 2-3 with mixed expand/shrink axes, dims up to 8 -> 48 and full-'
+        'range values, axis order 0,1,2 deviates from E by at most 0.9999/1.9999/2.6806 for 1/2/3 resampled axes and the '
+        'shrink-first order (seeded C14-8, C14-11) by exactly the same maxima; the two orders differ from each other by up to 2',
         'smooth / median: the statement quantifies over float arrays; the same VALUES typed as integers are taken to be in its '
         'domain (pydl documents "same type as signal"), with the rounding of integer results left open as above',
         'dims given as 8/16-bit numpy integers whose products overflow that type raise OverflowError in numpy 2 (a clear '
